@@ -500,9 +500,23 @@ func c12Close(a, b []float64) bool {
 
 // c12Sweeps tells whether the run has the shape [Load x; activation...] and guarantees at least d sweeps
 func c12RunGuaranteesDepth(run c12Run, nIn int, d int, hasHidden bool) (x []float64, ok bool) {
-	if len(run.Ops) < 2 || run.Ops[0].Kind != c12Load || len(run.Ops[0].X) != nIn {
+	// what comes before the LAST load is history: on a feed-forward network enough propagation after a load
+	// overwrites all of it, so the same answer is due as on a fresh solver
+	last := -1
+	for i, o := range run.Ops {
+		if o.Kind == c12Load {
+			last = i
+		}
+	}
+	if last < 0 || last+1 >= len(run.Ops) || len(run.Ops[last].X) != nIn {
 		return nil, false
 	}
+	for _, o := range run.Ops[:last] {
+		if o.Kind == c12Load && len(o.X) != nIn {
+			return nil, false
+		}
+	}
+	run = c12Run{Solver: run.Solver, Ops: run.Ops[last:], State: run.State}
 	sweeps := 0
 	for _, o := range run.Ops[1:] {
 		switch o.Kind {
@@ -784,6 +798,20 @@ func c12StandardRuns(rng *rand.Rand, n c12Net, d int, vectors int) []c12Run {
 			c12Run{Solver: 1, Ops: []c12Op{load, {Kind: c12Recursive}}, State: st},
 			c12Run{Solver: 1, Ops: []c12Op{load, {Kind: c12Relax, K: k + 1, Delta: 5e-324}}, State: st},
 			c12Run{Solver: 0, Ops: []c12Op{load, {Kind: c12Recursive}}, State: 0})
+		if v == 1 {
+			// consecutive inputs on ONE solver, no flush in between: the second answer is the function of the
+			// second input
+			x0 := c12RandVec(rng, nIn)
+			load0 := c12Op{Kind: c12Load, X: x0}
+			runs = append(runs,
+				c12Run{Solver: 0, Ops: []c12Op{load0, {Kind: c12Forward, K: k}, load, {Kind: c12Forward, K: k}}, State: 0},
+				c12Run{Solver: 1, Ops: []c12Op{load0, {Kind: c12Forward, K: k}, load, {Kind: c12Forward, K: k}}, State: 0},
+				c12Run{Solver: 1, Ops: []c12Op{load0, {Kind: c12Recursive}, load, {Kind: c12Recursive}}, State: 0},
+				c12Run{Solver: 1, Ops: []c12Op{load0, {Kind: c12Recursive}, load, {Kind: c12Forward, K: k}}, State: 0},
+				c12Run{Solver: 1, Ops: []c12Op{load0, {Kind: c12Forward, K: k}, load, {Kind: c12Recursive}}, State: 0},
+				c12Run{Solver: 1, Ops: []c12Op{load0, {Kind: c12Relax, K: k + 1, Delta: 5e-324}, load, {Kind: c12Relax, K: k + 1, Delta: 5e-324}}, State: 0},
+				c12Run{Solver: 0, Ops: []c12Op{load0, {Kind: c12Recursive}, load, {Kind: c12Recursive}}, State: 0})
+		}
 		if v == 0 {
 			// Relax with a non-positive tolerance performs one sweep per call
 			ops := []c12Op{load}
